@@ -2,3 +2,6 @@ import PysparklingVerif.Model.Val
 import PysparklingVerif.Properties.C01
 import PysparklingVerif.Properties.C07
 import PysparklingVerif.Properties.C18
+import PysparklingVerif.Properties.C02
+import PysparklingVerif.Properties.C04
+import PysparklingVerif.Properties.C17
